@@ -271,6 +271,14 @@ def _triangulate_concave_polygon(polygon: Polygon) -> numpy.ndarray:
         coords = exterior.coords[:-1]
         # We try and make an ear from vertices (i, i+1, i+2)
         for i in range(len(coords) - 2):
+            if coords[i + 1] in (coords[i], coords[i + 2]):
+                # A repeated vertex. No diagonal can be found around it,
+                # so clip it off as a zero-area triangle.
+                triangles[triangle_index] = coords[i:i + 3]
+                triangle_index += 1
+                polygon = Polygon(coords[:i + 1] + coords[i + 2:])
+                break
+
             # If the diagonal between i and i+2 is within the larger polygon,
             # then this entire triangle is within the larger polygon
             vertices = [coords[i], coords[i + 2]]
